@@ -16,6 +16,9 @@ mod facade {
     use std::sync::atomic::{AtomicU64, Ordering};
 
     pub fn switch() {}
+    pub fn thread_token() -> u64 {
+        0
+    }
     /// Under Miri all threads run at the same pace, so ungated waker threads are done before the
     /// first poll; start most of them at the first poll instead.
     pub const GATE_PROB: f64 = 0.9;
